@@ -28,8 +28,16 @@ fn f(v: &J) -> f64 {
 fn us(v: &J) -> usize {
     v.as_u64().expect("index expected") as usize
 }
+/// IEEE bit pattern; every NaN is written "nan" (its sign and payload are not defined and differ between builds)
+fn hexbits(x: f64) -> String {
+    if x.is_nan() {
+        "nan".to_string()
+    } else {
+        format!("{:016x}", x.to_bits())
+    }
+}
 fn bits(x: f64) -> J {
-    json!(format!("{:016x}", x.to_bits()))
+    json!(hexbits(x))
 }
 
 /// One step of a program.  Names are the Python spellings.
@@ -173,7 +181,7 @@ trait CbParts {
     fn cb(&self) -> J;
 }
 fn sorted_bits<'a>(it: impl Iterator<Item = &'a f64>) -> Vec<String> {
-    let mut v: Vec<String> = it.map(|x| format!("{:016x}", x.to_bits())).collect();
+    let mut v: Vec<String> = it.map(|x| hexbits(*x)).collect();
     v.sort();
     v
 }
